@@ -3,7 +3,8 @@ import WpModel.Model.PaginateFoot
 import WpModel.Drive.Paginate
 
 /-! Line protocol of the footnote pagination model:
-`pmfoot <pageH> <ltr> (<area mt mb pt pb bt bb maxH>) <box>` where a paragraph is
+`pmfoot <pageH> <ltr> (<area mt mb pt pb bt bb maxH>) [((<page name> (<area>)) …)] <box>` (the optional list holds
+the `@footnote` rules of named page types) where a paragraph is
 `(para id n lineH <style> ((line fid m h policy) …))`.  Output: one `(page …)` per page as `pm`, each
 extended with the footnote area `(fa y h mb pb bb ((fid y h) …))` / `(fa none)`, then `(left fid …)`. -/
 namespace Wp.Drive.PaginateFoot
@@ -34,6 +35,10 @@ def area? : Sx → Option AreaStyle
            maxH := maxH }
   | _ => none
 
+def named? : Sx → Option (String × AreaStyle)
+  | .list [.atom name, a] => do pure (name, ← area? a)
+  | _ => none
+
 def areaSx : Option AreaOut → Sx
   | none => .list [.atom "fa", .atom "none"]
   | some a => .list [.atom "fa", sxRat a.y, sxRat a.h, sxRat a.mb, sxRat a.pb, sxRat a.bb,
@@ -52,17 +57,21 @@ def leftSx (ps : List FPage) : Sx :=
 /-- Pages allowed: stage-1's bound plus two per footnote. -/
 def fuelOf (root : FootBox) : Nat := 2 * countBox root.erase + 8 + 2 * (boxFns root).length
 
+def run (h ltr a : Sx) (named : List Sx) (b : Sx) : Option String := do
+  let h ← h.rat?
+  let ltr ← ltr.bool?
+  let area ← area? a
+  let named ← allSome named? named
+  let root ← box? b
+  let d : FDoc := { pageH := h, rootLtr := ltr, root := root, area := area, named := named }
+  match paginateFoot d (fuelOf root) with
+  | some pages => pure (" ".intercalate ((pages.map fun p => (pageSxF p).render) ++ [(leftSx pages).render]))
+  | none => pure "err:pagination"
+
 def handle (cmd : String) (args : List Sx) : Option String :=
   match cmd, args with
-  | "pmfoot", [h, ltr, a, b] => do
-    let h ← h.rat?
-    let ltr ← ltr.bool?
-    let area ← area? a
-    let root ← box? b
-    let d : FDoc := { pageH := h, rootLtr := ltr, root := root, area := area }
-    match paginateFoot d (fuelOf root) with
-    | some pages => pure (" ".intercalate ((pages.map fun p => (pageSxF p).render) ++ [(leftSx pages).render]))
-    | none => pure "err:pagination"
+  | "pmfoot", [h, ltr, a, b] => run h ltr a [] b
+  | "pmfoot", [h, ltr, a, .list named, b] => run h ltr a named b
   | _, _ => none
 
 end Wp.Drive.PaginateFoot
